@@ -39,6 +39,15 @@ type SimAPI struct {
 	// Observe, when set, is called for every controller call at the instant it was applied
 	// (or refused), so that monitors can judge it against the state at that instant.
 	Observe func(c Call)
+	// batches of concurrent pod deletes (deleteTasks -> ConcurrentTasks): consecutive batches of
+	// one sync are SEQUENTIAL (each waits for its goroutines), only the deletes inside one batch
+	// race.  A new batch starts after any other controller call, when the force flag changes
+	// (kill batch -> force-delete batch) and when a key repeats (pending-timeout batch -> kill
+	// batch: the kill batch deletes a superset of the pending batch computed from the same list).
+	delRun      int
+	inDelRun    bool
+	delRunForce bool
+	delRunKeys  map[string]bool
 }
 
 // Call describes one API call issued by a controller.
@@ -57,6 +66,7 @@ type Event struct {
 	Type string // add | update | delete
 	Obj  runtime.Object
 	Src  string // API verb that caused it (create | update | delete | "" for external writers)
+	Run  int    // pod deletes: number of the concurrent batch that caused it (see SimAPI.delRun)
 }
 
 // DebugNormalize, when set, sees every submitted update before and after normalisation.
@@ -113,18 +123,20 @@ func normalize(obj runtime.Object) runtime.Object {
 func (a *SimAPI) nextRV() string { a.rv++; return fmt.Sprint(a.rv) }
 
 func (a *SimAPI) emit(resource, typ string, obj runtime.Object) {
-	a.Pending[resource] = append(a.Pending[resource], Event{typ, obj.DeepCopyObject(), a.curVerb})
+	a.Pending[resource] = append(a.Pending[resource], Event{typ, obj.DeepCopyObject(), a.curVerb, a.delRun})
 }
 
 // SortDeleteRuns orders, by object key, every maximal run of consecutive events caused by
-// delete calls among the events appended since index from: deletes issued concurrently reach
-// the server in an arbitrary order, which must not leak into the explored history.
+// the delete calls of ONE concurrent batch among the events appended since index from: deletes
+// issued concurrently reach the server in an arbitrary order, which must not leak into the
+// explored history.  Events of different batches keep their order (batches are sequential).
 func (a *SimAPI) SortDeleteRuns(resource string, from int) {
+	a.inDelRun = false // the sync is over: its last batch is closed
 	evs := a.Pending[resource]
 	i := from
 	for i < len(evs) {
 		j := i
-		for j < len(evs) && evs[j].Src == "delete" {
+		for j < len(evs) && evs[j].Src == "delete" && evs[j].Run == evs[i].Run {
 			j++
 		}
 		if j > i {
@@ -179,6 +191,18 @@ func (a *SimAPI) react(action ktesting.Action) (bool, runtime.Object, error) {
 }
 
 func (a *SimAPI) fault(c *Call, fromController bool) (string, error) {
+	if fromController {
+		if c.Verb == "delete" && c.Resource == "pods" {
+			if !a.inDelRun || a.delRunForce != c.Force || a.delRunKeys[c.Key] {
+				a.delRun++
+				a.delRunKeys = map[string]bool{}
+			}
+			a.inDelRun, a.delRunForce = true, c.Force
+			a.delRunKeys[c.Key] = true
+		} else {
+			a.inDelRun = false
+		}
+	}
 	if !fromController || a.Fault == nil {
 		return "", nil
 	}
